@@ -9,8 +9,8 @@ from ..interp_prop import InterpProp
 
 class C18(InterpProp):
     id = 'C18'
-    quick_cases = 120
-    thorough_cases = 2000
+    quick_cases = 500
+    thorough_cases = 15000
     n_ops = 24
     with_contracts = 0.7
     rule = ('random charts with __old__ contracts, history states and delayed sends; interpreter 0 is replaced by its '
